@@ -16,31 +16,36 @@ from specs.shared import REPO_PY, ADAPTERS_PY, UTILS_PY, UF
 AEADOBJ = models.opaque_type('AEAD')
 
 
-def aead_setup(b):
-    nb = sym.const(INT, 'nonce_bytes')
-    b.assume(nb.z >= 1)
-    b.nb = nb
-    SELF = models.opaque_type('CipherSelf')
-    SELF.attrs = {'_nonce_bytes': nb,
-                  'cipher_class': Model('cipher_class', lambda i, s, a, k: iter([(s, SV(AEADOBJ, UF('aead_of_key', BYTES, AEADOBJ)(sym.lift(a[0], BYTES).z)))]))}
-    b.sym('self', SELF)
-    b.sym('data', BYTES)
-    b.sym('key', BYTES)
+def aead_setup_for(cls):
+    def aead_setup(b):
+        nb = sym.const(INT, 'nonce_bytes')
+        b.assume(nb.z >= 1)
+        b.nb = nb
+        me = Obj('self', _nonce_bytes=nb,
+                 cipher_class=Model('cipher_class', lambda i, s, a, k: iter([(s, SV(AEADOBJ, UF('aead_of_key', BYTES, AEADOBJ)(sym.lift(a[0], BYTES).z)))])))
+        # `self` is an instance of the CONCRETE cipher class: helpers encrypt() calls are resolved through its MRO and
+        # inlined from the real source (an override in the subclass is what runs); other state is unknown
+        me._class_source = (ADAPTERS_PY, cls)
+        me._lenient = True
+        b.bind('self', me)
+        b.sym('data', BYTES)
+        b.sym('key', BYTES)
 
-    def urandom(interp, st, args, kwargs):
-        r = sym.fresh(BYTES, 'urandom')
-        st.assume(z3.Length(r.z) == sym.lift(args[0], INT).z)
-        st.emit('urandom', n=args[0], value=r)
-        yield st, r
+        def urandom(interp, st, args, kwargs):
+            r = sym.fresh(BYTES, 'urandom')
+            st.assume(z3.Length(r.z) == sym.lift(args[0], INT).z)
+            st.emit('urandom', n=args[0], value=r)
+            yield st, r
 
-    b.bind('os', Obj('os', urandom=Model('os.urandom', urandom)))
+        b.bind('os', Obj('os', urandom=Model('os.urandom', urandom)))
 
-    def enc(interp, st, args, kwargs):
-        _, nonce, data, aad = args
-        st.emit('aead_encrypt', nonce=nonce, data=data, aad=aad)
-        yield st, SV(BYTES, UF('aead_enc', AEADOBJ, BYTES, BYTES, BYTES)(args[0].z, sym.lift(nonce, BYTES).z, sym.lift(data, BYTES).z))
+        def enc(interp, st, args, kwargs):
+            _, nonce, data, aad = args
+            st.emit('aead_encrypt', nonce=nonce, data=data, aad=aad)
+            yield st, SV(BYTES, UF('aead_enc', AEADOBJ, BYTES, BYTES, BYTES)(args[0].z, sym.lift(nonce, BYTES).z, sym.lift(data, BYTES).z))
 
-    AEADOBJ.attrs = {'encrypt': MethodModel('encrypt', enc)}
+        AEADOBJ.attrs = {'encrypt': MethodModel('encrypt', enc)}
+    return aead_setup
 
 
 def aead_post(prop):
@@ -65,8 +70,15 @@ def aead_post(prop):
     return post
 
 
-def aead_unit(prop):
-    return Unit(f'{prop}.aead_encrypt', ADAPTERS_PY, 'AEADCipherAdapterMixin.encrypt', aead_setup, aead_post(prop), prop=prop)
+def aead_units(prop):
+    """one unit per concrete AEAD cipher class of adapters.py: the `encrypt` that class really runs"""
+    from vf import source
+    out = []
+    for cls in source.subclasses(ADAPTERS_PY, 'AEADCipherAdapterMixin'):
+        out.append(Unit(f'{prop}.aead_encrypt[{cls}]', ADAPTERS_PY, source.resolve_method(ADAPTERS_PY, cls, 'encrypt'),
+                        aead_setup_for(cls), aead_post(prop), prop=prop))
+    return out
+
 
 
 # ---- utils.type_hint / type_reverse ----------------------------------------------------------------
@@ -221,3 +233,97 @@ def chunkify_post(prop):
 
 def chunkify_unit(prop):
     return Unit(f'{prop}.chunkify', REPO_PY, 'RepositoryProps.chunkify', chunkify_setup, chunkify_post(prop), prop=prop)
+
+
+# ---- the primitive adapters: what exactly is handed to hashlib / cryptography ---------------------------------
+def blake_setup(method):
+    def setup(b):
+        from specs.settings import Settable
+        me = Obj('self', digest_size=sym.const(INT, 'digest_size'))
+        b.bind('self', me)
+        b.sym('key_material', BYTES)
+        b.sym('message', BYTES)
+        b.sym('data', BYTES)
+        b.sym('params', BYTES)
+        b.sym('context', Opt(BYTES))
+        H = models.opaque_type('Blake2bObj')
+        H.attrs = {'digest': MethodModel('digest', lambda i, s, a, k: iter([(s, SV(BYTES, UF('blake2b_out', H, BYTES)(a[0].z)))]))}
+
+        def blake2b(interp, st, args, kwargs):
+            st.emit('blake2b', data=args[0] if args else b'', kwargs=dict(kwargs))
+            yield st, sym.fresh(H, 'h')
+
+        m = Model('blake2b', blake2b)
+        m.attrs = {'MAX_KEY_SIZE': 64, 'MAX_DIGEST_SIZE': 64, 'SALT_SIZE': 16, 'PERSON_SIZE': 16}
+        b.bind('hashlib', Obj('hashlib', blake2b=m))
+    return setup
+
+
+def blake_post(prop, method):
+    def post(res):
+        b = res.builder
+        g = lambda n: b.st.lookup(n)
+        for p in res.paths:
+            ev = p.events('blake2b')
+            if p.kind != 'return' or len(ev) != 1:
+                res.oblige(p, f'{prop}.blake2b.{method}.one_hash_call', z3.BoolVal(False))
+                continue
+            e = ev[0]
+            kw = e.data['kwargs']
+            data = e.data['data']
+            zb = lambda v: (Opt(BYTES).val(v.z) if isinstance(v, SV) and isinstance(v.ty, Opt) else sym.lift(v, BYTES).z)
+            ds = sym.lift(kw.get('digest_size'), INT).z == b.st.lookup('self').get('digest_size').z
+            if method == 'derive':
+                ctx = g('context')
+                # FastKdf(ikm, salt, context): BLAKE2b keyed with the WHOLE key material, salted, over the context
+                res.oblige(p, f'{prop}.blake2b.derive.keyed_with_whole_key_material_salted_over_context', z3.And(
+                    ds, zb(kw['key']) == g('key_material').z, zb(kw['salt']) == g('params').z,
+                    zb(data) == z3.If(ctx.ty.is_none(ctx.z), z3.StringVal(''), ctx.ty.val(ctx.z))))
+            elif method == 'mac':
+                res.oblige(p, f'{prop}.blake2b.mac.keyed_hash_of_the_message', z3.And(
+                    ds, zb(kw['key']) == g('params').z, zb(data) == g('message').z, z3.BoolVal('salt' not in kw)))
+            else:
+                res.oblige(p, f'{prop}.blake2b.digest.plain_hash_of_the_data', z3.And(
+                    ds, zb(data) == g('data').z, z3.BoolVal('key' not in kw and 'salt' not in kw)))
+    return post
+
+
+def scrypt_setup(b):
+    me = Obj('self', n=sym.const(INT, 'n'), r=sym.const(INT, 'r'), p=sym.const(INT, 'p'), length=sym.const(INT, 'length'))
+    b.bind('self', me)
+    b.sym('pwd', BYTES)
+    b.sym('params', BYTES)
+    b.sym('context', Opt(BYTES))
+    S = models.opaque_type('ScryptObj')
+    S.attrs = {'derive': MethodModel('derive', lambda i, s, a, k: (s.emit('scrypt_derive', pwd=a[1]), iter([(s, sym.fresh(BYTES, 'uk'))]))[1])}
+
+    def Scrypt(interp, st, args, kwargs):
+        st.emit('Scrypt', kwargs=dict(kwargs))
+        yield st, sym.fresh(S, 'scrypt')
+
+    b.bind('Scrypt', Model('Scrypt', Scrypt))
+
+
+def scrypt_post(prop):
+    def post(res):
+        b = res.builder
+        me = b.st.lookup('self')
+        ctx = b.st.lookup('context')
+        for p in res.paths:
+            sc, dv = p.events('Scrypt'), p.events('scrypt_derive')
+            if p.kind != 'return' or len(sc) != 1 or len(dv) != 1:
+                res.oblige(p, f'{prop}.scrypt.derive.one_call', z3.BoolVal(False))
+                continue
+            kw = sc[0].data['kwargs']
+            # SlowKdf(password, salt[, context]): the whole password, cost parameters of the adapter, salt ++ context
+            res.oblige(p, f'{prop}.scrypt.derive.whole_password_configured_costs_salt_then_context', z3.And(
+                sym.lift(dv[0].data['pwd'], BYTES).z == b.st.lookup('pwd').z,
+                *[sym.lift(kw[x], INT).z == me.get(x).z for x in ('n', 'r', 'p', 'length')],
+                sym.lift(kw['salt'], BYTES).z == z3.Concat(b.st.lookup('params').z, z3.If(ctx.ty.is_none(ctx.z), z3.StringVal(''), ctx.ty.val(ctx.z)))))
+    return post
+
+
+def primitive_units(prop):
+    out = [Unit(f'{prop}.blake2b_{m}', ADAPTERS_PY, f'blake2b.{m}', blake_setup(m), blake_post(prop, m), prop=prop) for m in ('derive', 'mac', 'digest')]
+    out.append(Unit(f'{prop}.scrypt_derive', ADAPTERS_PY, 'scrypt.derive', scrypt_setup, scrypt_post(prop), prop=prop))
+    return out
